@@ -310,8 +310,17 @@ func (ex *Exec) modelled(st *State, ref string, fn *types.Func, recv *Val, args 
 		}
 	case "fmt.Sprintf", "fmt.Sprint", "fmt.Sprintln", "strconv.Itoa", "strconv.FormatInt", "strconv.FormatUint", "strconv.FormatFloat", "strconv.FormatBool", "strconv.Quote":
 		return one(ex.freshVal(r0(), "fmt"))
-	case "errors.Is", "errors.As":
-		return one(b(ex.eng.smt.fresh("errIs", "Bool")))
+	case "errors.Is":
+		// deterministic in (err, target); true when they are the same value, false for a nil error
+		ex.eng.smt.declFun("uf_errorsIs", "(declare-fun uf_errorsIs (Int Int) Bool)")
+		ex.eng.smt.addFunAx("uf_errorsIs", "(forall ((e Int) (t Int)) (! (and (=> (= e t) (uf_errorsIs e t)) (=> (and (= e 0) (not (= t 0))) (not (uf_errorsIs e t)))) :pattern ((uf_errorsIs e t))))")
+		if len(args) != 2 || args[0].S == "" || args[1].S == "" {
+			// a struct-valued target (e.g. husky's OTLPError values): unconstrained answer
+			return one(b(ex.eng.smt.fresh("errIs", "Bool")))
+		}
+		return one(b("(uf_errorsIs " + args[0].S + " " + args[1].S + ")"))
+	case "errors.As":
+		return one(b(ex.eng.smt.fresh("errAs", "Bool")))
 	// ---- math
 	case "math.Sqrt":
 		r := ex.freshVal(r0(), "sqrt")
@@ -572,6 +581,20 @@ func (ex *Exec) guardCheck(st *State, loc *Loc, at interface{ Pos() token.Pos },
 	}
 	ex.guardN[loc.Path[0]+what]++
 	ex.obligNamed(st, "held", fmt.Sprintf("held(%s):%s:%s#%d", mu, what, loc.Path[0], ex.guardN[loc.Path[0]+what]), at.Pos(), goal, fmt.Sprintf("%s of %s.%s requires %s held", what, loc.TKey, loc.Path[0], mu))
+}
+
+// finalCheck: a field declared `final` is written only in an object allocated by this
+// very function (construction); any other write is a failed obligation.
+func (ex *Exec) finalCheck(st *State, loc *Loc, at interface{ Pos() token.Pos }) {
+	if !loc.Heap || ex.specDepth > 0 {
+		return
+	}
+	key := heapKey(loc.TKey, strings.Join(loc.Path, "."))
+	if !isFinalKey(key) {
+		return
+	}
+	ex.finalN++
+	ex.obligNamed(st, "final", fmt.Sprintf("final:write(%s)#%d", key, ex.finalN), at.Pos(), "(>= "+loc.Ref+" "+ex.eng.alloc0()+")", "field "+key+" is declared final: it may be assigned only in an object this function has just allocated")
 }
 
 func (ex *Exec) ownsCheck(st *State, loc *Loc, at interface{ Pos() token.Pos }) {
